@@ -56,6 +56,18 @@ CLAIMED = {
         "Crashing/livelocking runs are judged by C05. Scheduler runtime 0; no preemption.",
         "DESIGN.md 3 C08",
     ),
+    "C09": (
+        "Hypothesis-generated workload/cluster files run by two fresh main.py processes with different PYTHONHASHSEED and directories; differential comparison of the CSV traces",
+        "Differential oracle over real process pairs: identical traces up to the masked wall-clock fields for every generated workload using randomness. Exploration.",
+        "Deterministic policies with scheduler runtime 0; same interpreter and machine for both runs.",
+        "DESIGN.md 3 C09",
+    ),
+    "C13": (
+        "Hypothesis-generated scheduler inputs (reachable states on single-worker pools) with an independent tie-tolerant fit check per unplaced task",
+        "For every generated invocation of EDF/FIFO/LSF: each unplaced task must not fit any pool once higher-or-equal priority placements are accounted; placed tasks are jointly feasible. Exploration.",
+        "Single-worker pools; priority keys recomputed by the harness (deadline / release / deadline-now-remaining).",
+        "DESIGN.md 3 C13",
+    ),
     "C16": (
         "Hypothesis-generated EventTime triples against integer-microsecond arithmetic; generated "
         "EventQueue operation histories against a reference multiset (model-based)",
@@ -80,6 +92,12 @@ CLAIMED = {
         "Validity predicates (released tasks offered, finished/placed tasks not offered), metamorphic relations (offer monotone in lookahead and in release_taskgraphs), a release-on-completion reference rule, and the no-early-offer predicate on real greedy runs. Exploration.",
         "No preemption; RANDOM branch policy excluded from subset relations.",
         "DESIGN.md 3 C18",
+    ),
+    "C19": (
+        "Hypothesis-generated YAML/JSON descriptions loaded by WorkloadLoader/WorkerLoader and compared field by field (round-trip), with independently recomputed release times, graph copies and deadlines; closed-loop concurrency on generated runs",
+        "Round-trip oracle for descriptions, reference computations for release policies and deadlines, invariant over end-to-end closed-loop runs. Exploration.",
+        "Critical path by own brute-force enumeration; graphs whose critical path is ambiguous (zero weights with SLOs) are skipped and counted.",
+        "DESIGN.md 3 C19",
     ),
 }
 
